@@ -2,7 +2,7 @@
 from __future__ import annotations
 
 from .. import compat
-from ..cluster import BufferMachine, View
+from ..cluster import BufferMachine, View, is_undef
 from ..interp import Core, Violation, check_dominance
 from ..layout import address, all_indices, shape_of, tsl_text
 from .accfg_common import Rejected, compile_variant, digest_of, merge, new_outcome
@@ -15,7 +15,7 @@ E = 4
 T = f"memref<{E}xi32>"
 RULE = (
     "two case families. kernels: public functions with 3 memref arguments (no memory space), local allocs and 1-12 linalg.generic kernels "
-    "(1-2 inputs; in a quarter of the cases every kernel operand standing for 1-3 of the arguments gets its own snax.layout_cast to a tiled layout on top of the L1 cast - chains of casts, inserted between set-memory-space and realize-memref-casts as set-memory-layout would; in a quarter of the cases 30% of the kernels accumulate, i.e. read their own output) in straight-line code and scf.for nests (0-2 trips), compiled with set-memory-space,realize-memref-casts[,clear-memory-space]; "
+    "(1-2 inputs; in-place kernels (the same buffer on both sides); in a quarter of the cases loop bodies may read a local before - in program order - the kernel that fills it (loop-carried data; what the reference read from uninitialised memory matches anything) and reads of local buffers go through a layout cast; in a quarter of the cases every kernel operand standing for 1-3 of the arguments gets its own snax.layout_cast to a tiled layout on top of the L1 cast - chains of casts, inserted between set-memory-space and realize-memref-casts as set-memory-layout would; in a quarter of the cases 30% of the kernels accumulate, i.e. read their own output) in straight-line code and scf.for nests (0-2 trips), compiled with set-memory-space,realize-memref-casts[,clear-memory-space]; "
     "reference = the program as written (kernels operate on the arguments directly), subject = the compiled program where every alloc is a "
     "distinct buffer holding site-tagged garbage and copies move contents; both executed on symbolic buffer contents. Oracles: static - SSA "
     "dominance of the output, every linalg operand in L1, argument types in L3; data - every kernel execution reads the provenance the "
@@ -31,7 +31,8 @@ RULE = (
 
 
 class KGen:
-    def __init__(self, rng, accum=0.0):
+    def __init__(self, rng, accum=0.0, inplace=0.0, uninit=0.0):
+        self.inplace, self.uninit = inplace, uninit
         self.r = rng
         self.n = 0
         self.tag = 0
@@ -41,7 +42,7 @@ class KGen:
 
     def stmt(self, depth, top):
         r = self.r
-        k = r.choices(["gen", "gen2", "alloc", "for"], [5, 3, 1 if top else 0, 2 if depth < 2 else 0])[0]
+        k = r.choices(["gen", "gen2", "alloc", "for"], [5, 3, (2 if self.uninit else 1) if top else 0, (4 if self.uninit else 2) if depth < 2 else 0])[0]
         if k == "alloc":
             self.n += 1
             b = f"%b{self.n}"
@@ -53,10 +54,15 @@ class KGen:
         self.tag += 1
         # locals are written before they are read (uninitialised reads are not comparable)
         readable = [b for b in self.bufs if b.startswith("%a") or b in self.written]
+        if self.uninit and depth > 0 and r.random() < self.uninit:
+            # loop-carried data: inside a loop a local may be read before (in program order) the kernel that fills it
+            readable = list(self.bufs)
         nin = 1 if k == "gen" else 2
         ins = [r.choice(readable) for _ in range(nin)]
         outs = [b for b in self.bufs if b not in ins]
         out = r.choice(outs)
+        if self.inplace and r.random() < self.inplace:
+            out = ins[0]  # in place: the same buffer on the input and on the output side
         st = {"k": "gen", "ins": ins, "out": out, "tag": self.tag}
         if self.accum and r.random() < self.accum and (out.startswith("%a") or out in self.written):
             st["acc"] = True  # out = f(ins, out): the output is read as well
@@ -137,8 +143,12 @@ def first_use_is_read(ast, what="discipline", lc_args=()):
                 for b_ in s["ins"]:
                     if b_.startswith("%a"):
                         use(b_, path, "r")
-                if s["out"].startswith("%a"):
+                if s["out"].startswith("%a") and s["out"] not in s["ins"]:
                     use(s["out"], path, "rw" if s.get("acc") else "w")
+                elif s["out"].startswith("%a"):
+                    # in place: already counted as read above - unless every use has its own layout cast, then the output
+                    # side is a stand-in of its own
+                    use(s["out"], path, ("rw" if s.get("acc") else "w") if int(s["out"][2:]) in lc_args else "w")
 
     walk(ast["body"], ())
     if what == "accumulating-first":
@@ -166,11 +176,11 @@ def reads_of(m):
 LAYOUTS = ["[2, 2] -> (1, 2)", "[2, 2] -> (2, 1)", "[4] -> (1)"]
 
 
-def compile_with_layout_casts(src, lc_args, clear):
+def compile_with_layout_casts(src, lc_args, clear, lc_allocs=()):
     """set-memory-space, then what set-memory-layout does for an accelerator that wants a tiled layout - every kernel operand
     that stands for one of the arguments in lc_args gets its own snax.layout_cast (a chain memory_space_cast -> layout_cast
     with a single user) - then realize-memref-casts."""
-    from xdsl.dialects import linalg
+    from xdsl.dialects import linalg, memref
     from xdsl.dialects.memref import MemorySpaceCastOp
     from xdsl.ir import BlockArgument
     from xdsl.parser import Parser
@@ -192,6 +202,14 @@ def compile_with_layout_casts(src, lc_args, clear):
             continue
         for j, v in enumerate(op.operands):
             o = v.owner
+            if lc_allocs and isinstance(o, memref.AllocOp) and j < len(op.inputs):
+                # a local buffer that is read through a layout cast (and written directly: the allocation keeps its layout)
+                ty = Parser(ctx, f'memref<{E}xi32, #tsl.tsl<{LAYOUTS[(n + 1) % len(LAYOUTS)]}>, "L1">').parse_type()
+                lc = LayoutCast(v, ty)
+                Rewriter().insert_op(lc, InsertPoint.before(op))
+                op.operands[j] = lc.dest
+                n += 1
+                continue
             if isinstance(o, MemorySpaceCastOp) and isinstance(o.source, BlockArgument) and o.source.index in lc_args:
                 ty = Parser(ctx, f'memref<{E}xi32, #tsl.tsl<{LAYOUTS[(n + o.source.index) % len(LAYOUTS)]}>, "L1">').parse_type()
                 lc = LayoutCast(v, ty)
@@ -213,8 +231,8 @@ def run_kernels(case, out):
     spec = "set-memory-space,realize-memref-casts" + (",clear-memory-space" if case["clear"] else "")
     try:
         P = compile_variant(src, None)
-        if case.get("lc_args"):
-            S, n_lc = compile_with_layout_casts(src, case["lc_args"], case["clear"])
+        if case.get("lc_args") or case.get("lc_allocs"):
+            S, n_lc = compile_with_layout_casts(src, case.get("lc_args", []), case["clear"], case.get("lc_allocs", []))
             out["probes"]["layout-cast-chains"] = n_lc
         else:
             S = compile_variant(src, spec)
@@ -249,6 +267,7 @@ def run_kernels(case, out):
         out["runs"] += 2
         out["zero_fault_runs"] += 2
         ref = BufferMachine(P, 1, sequential=True)
+        ref.taint = bool(case["ast"].get("uninit_reads"))
         ref.run_single("f", kargs(ref, env, case["ast"].get("dyn")), Core(0))
         sub = BufferMachine(S, 1, sequential=True)
         try:
@@ -259,11 +278,16 @@ def run_kernels(case, out):
         bad = None
         a, b = reads_of(ref), reads_of(sub)
         b = [x for x in b if isinstance(x[0], str)]  # copies inserted by the pass carry no kernel tag
-        if a != b:
-            k = next((j for j, (x, y) in enumerate(zip(a, b)) if x != y), min(len(a), len(b)))
+
+        def same(x, y):
+            # where the reference read (data derived from) uninitialised memory, anything is accepted
+            return x[0] == y[0] and len(x[1]) == len(y[1]) and all(is_undef(u) or u == v for u, v in zip(x[1], y[1]))
+
+        if len(a) != len(b) or not all(same(x, y) for x, y in zip(a, b)):
+            k = next((j for j, (x, y) in enumerate(zip(a, b)) if not same(x, y)), min(len(a), len(b)))
             bad = f"kernel execution {k}: reference reads {a[k] if k < len(a) else None!r}, compiled program reads {b[k] if k < len(b) else None!r}"
-        elif ref.externals() != sub.externals():
-            cells = sorted(k for k, v in ref.externals().items() if sub.mem.get(k) != v)[:2]
+        elif any(not (is_undef(v) or sub.mem.get(k) == v) for k, v in ref.externals().items()):
+            cells = sorted(k for k, v in ref.externals().items() if sub.mem.get(k) != v and not is_undef(v))[:2]
             bad = f"arguments end differently: cells {cells} hold {[sub.mem.get(c) for c in cells]!r}, reference {[ref.mem[c] for c in cells]!r}"
         if bad:
             if judged:
@@ -471,7 +495,10 @@ def gen_case(rng, tier):
         tb = [[rng.choice([1, 2, 2, 3, 4]) for _ in range(depth[d])] for d in range(rank)]
         return {"fam": "const", "tb": tb, "steps": gen_steps(rng, tb, pad=False), "el": rng.choice(["i8", "i32"]), "kind": rng.choice(["const", "const", "global", "global", "global-two-gets", "global-two-casts", "global-two-funcs"]), "mul": rng.choice([1, 3, 7])}
     accum = rng.choice([0, 0, 0, 0.3])
-    ast = KGen(rng, accum).program()
+    uninit = rng.choice([0, 0, 0, 0.4])
+    ast = KGen(rng, accum, inplace=rng.choice([0, 0, 0.2]), uninit=uninit).program()
+    if uninit:
+        ast["uninit_reads"] = True
     envs = [{"n": [rng.choice([0, 1, 2]), rng.choice([0, 1, 2])]} for _ in range(K_ENVS[tier])]
     if rng.random() < 0.15:
         ast["dyn"] = True  # all buffers are 2 x ? (run-time number of columns 1..4): stand-ins are sized with memref.dim
@@ -481,6 +508,8 @@ def gen_case(rng, tier):
     if rng.random() < 0.25 and not ast.get("dyn"):
         # chains of casts: every kernel operand standing for these arguments gets its own layout cast on top of the L1 cast
         case["lc_args"] = sorted(rng.sample([0, 1, 2], rng.choice([1, 1, 2, 3])))
+    if rng.random() < (0.6 if ast.get("uninit_reads") else 0.1) and not ast.get("dyn"):
+        case["lc_allocs"] = True  # local buffers are read through a layout cast (set-memory-space drops the site attribute: all of them)
     return case
 
 
@@ -536,6 +565,8 @@ def shrink(case):
         yield dict(case, ast={k: v for k, v in case["ast"].items() if k != "dyn"})
     if case["clear"]:
         yield dict(case, clear=False)
+    if case.get("lc_allocs"):
+        yield {k: v for k, v in case.items() if k != "lc_allocs"}
     if case.get("lc_args"):
         yield {k: v for k, v in case.items() if k != "lc_args"}
         for a in case["lc_args"]:
